@@ -44,7 +44,7 @@ var c14Nasty = []string{
 	``, `plain`, `"`, `\`, `\"`, `"quoted"`, `back\slash\\`, "new\nline", "cr\rlf\r\n", "tab\tx", "\x00", "\x01\x02\x1f", "\x7f",
 	"\u2028", "\u2029", "line sep \u2028 para sep \u2029", "<script>alert('x')</script>", "&amp;", "\u65e5\u672c\u8a9e", "\U0001F600", "\u00e9", "\ufeff", "\ufffd", "\u0085", "\u200b",
 	"\xff", "\xc3", "a\xc3(b", "\xe2\x82", "\xf0\x9f\x98", "\xed\xa0\x80", "ok\x80\x81tail", `{"ip":"1.2.3.4"}`, `}`, `]`, `,`, `:`, `//`, `/*`,
-	"\\u0041", "\\n", `\\`, "null", "true", " leading and trailing ", "\"}\n{\"ip\":\"6.6.6.6\"",
+	"\\u0041", "\\u0026", "\\u003c", "\\u003e", "a \\u0026 b <&> \\u003cscript\\u003e", "<>&", "\\n", `\\`, "null", "true", " leading and trailing ", "\"}\n{\"ip\":\"6.6.6.6\"",
 }
 
 func c14String(p picker, label string) string {
